@@ -218,7 +218,7 @@ attribute [timerk] deliverSt resumeArg body runBurst noteErr
   KState.emit afterBurst register KState.processed KState.setProc KState.addCb KState.setEv KState.ev KState.defuse
   KState.eraseCb KState.triggered
   openEvent closeEvent finishProc KState.trigger KState.setOut KState.schedule runCb deliverInterrupt List.foldl
-  cStopped cExpire cTimeout cStart cProc cFired
+  cStopped cExpire cTimeout cStart cProc cFired cStarted
   doCall_load doCall_store doCall_log_int doCall_log_none doCall_log_enc doCall_timeout doCall_spawn
   doCall_interrupt_self doCall_interrupt_dead doCall_interrupt_ok
   lookup_store lookup_cons lookup_filter_ne plookup_set plookup_cons plookup_filter_ne fresh_ne proc?_eq dec_enc
